@@ -1159,6 +1159,21 @@ def run_make_mesh(mutate=None, prefixes=("C07.", "C08.")):
         AR = d.areas
         check("C08.device_mesh_quantities.areas_times_xi_squared", z3.BoolVal(isinstance(AR, SymArray)) if not isinstance(AR, SymArray) else sym.eq(AR.at(i), SR.lift(final.areas.at(i)) * xi * xi))
         check("C07.device_mesh_quantities.triangles_are_the_mesh_elements", z3.BoolVal(d.triangles is tri_out))
+        # voltage probes: looked up on the DIMENSIONLESS mesh, i.e. at the probe positions divided by the coherence length, one site per probe, in order
+        asked = []
+        final.closest_site = lambda xy: asked.append(xy) or SI(FreshInt("site_index"))
+        import numpy as _np
+        d.probe_points = _np.array([[0.5, -1.25], [2.0, 0.75], [-3.0, 0.125]])
+        idxs = d.probe_point_indices
+        okq = isinstance(idxs, list) and len(idxs) == 3 and len(asked) == 3
+        check("C08.device_mesh_quantities.one_site_per_probe_point", z3.BoolVal(okq))
+        if okq:
+            goal = []
+            for q in range(3):
+                a = asked[q]
+                for cc in range(2):
+                    goal.append(sym.eq(SR.lift(a[cc]) * xi, float(d.probe_points[q, cc])))
+            check("C08.device_mesh_quantities.probes_looked_up_at_their_positions_divided_by_xi", z3.And(*goal))
     obls, n = explore(body)
     return dict(obls=obls, paths=n, sources=[L.info()], consistent=sym.consistent())
 
@@ -1168,5 +1183,6 @@ MUTANTS += [
     dict(name="make_mesh: dimensionless mesh multiplied by xi", units=["Device.make_mesh"], edits=[(DV_, "            points / self.coherence_length.magnitude,\n            triangles,", "            points * self.coherence_length.magnitude,\n            triangles,")]),
     dict(name="make_mesh: smoothing result dropped", units=["Device.make_mesh"], edits=[(DV_, "            points = mesh.sites\n            triangles = mesh.elements\n", "            triangles = mesh.elements\n")]),
     dict(name="make_mesh: default resolution of one length unit", units=["Device.make_mesh"], edits=[(DV_, "            max_edge_length = 1.0 * self.coherence_length.magnitude", "            max_edge_length = 1.0")]),
+    dict(name="probe points looked up in length units", units=["Device.make_mesh"], edits=[(DV_, "return [self.mesh.closest_site(xy) for xy in self.probe_points / xi]", "return [self.mesh.closest_site(xy) for xy in self.probe_points]")]),
     dict(name="device areas scaled by xi", units=["Device.make_mesh"], edits=[(DV_, "        return self.mesh.areas * self.coherence_length.magnitude**2", "        return self.mesh.areas * self.coherence_length.magnitude")]),
 ]
